@@ -120,8 +120,8 @@ def analyse(text: str, payload: str, benign_skeleton, names_become_identifiers=F
         if MARK not in t.text:
             continue
         if t.kind in ('comment', 'doc'):
-            if '\r' in t.text:
-                bad.append('a bare carriage return inside a comment (rustc rejects the file)')
+            if '\r' in t.text and t.kind == 'doc':
+                bad.append('a bare carriage return inside a doc comment (rustc rejects the file; plain comments may contain one)')
             continue
         if t.kind == 'ident' and names_become_identifiers:
             continue          # a name legitimately becomes (part of) an identifier; the skeleton comparison below decides
